@@ -339,8 +339,9 @@ Definition w_rels (w : wstate) (src : string) (rels : list (reltype * string)) :
   then Ok (mk_w (w_log w ++ [LRels src rels]) (w_aas_parts w) (w_suppl w) (w_core w) (w_thumb w))
   else Err EValueError.
 
+(* [extra]: the additional_relationships argument (here: aas-spec-split relationships to split parts) *)
 Definition write_all_aas_objects (part_name : string) (objs : ostore) (F : Files.st) (json split : bool)
-           (w : wstate) : res wstate :=
+           (extra : list (reltype * string)) (w : wstate) : res wstate :=
   let files := flat_map obj_file_names objs in
   let w0 := mk_w (w_log w) (if split then w_aas_parts w else w_aas_parts w ++ [part_name])
                  (w_suppl w) (w_core w) (w_thumb w) in
@@ -349,7 +350,7 @@ Definition write_all_aas_objects (part_name : string) (objs : ostore) (F : Files
   | Ok w1 =>
     match write_files part_name F files w1 [] with
     | Err e => Err e
-    | Ok (w2, targets) => w_rels w2 part_name (map (fun t => (RSuppl, t)) targets)
+    | Ok (w2, targets) => w_rels w2 part_name (map (fun t => (RSuppl, t)) targets ++ extra)
     end
   end.
 
@@ -363,8 +364,8 @@ Fixpoint pick (S : ostore) (ids : list ident) (acc : ostore) : ostore :=
               end
   end.
 Definition write_aas_objects (part_name : string) (ids : list ident) (S : ostore) (F : Files.st)
-           (json split : bool) (w : wstate) : res wstate :=
-  write_all_aas_objects part_name (pick S ids []) F json split w.
+           (json split : bool) (extra : list (reltype * string)) (w : wstate) : res wstate :=
+  write_all_aas_objects part_name (pick S ids []) F json split extra w.
 
 (* write_aas, first loop: the shells and the submodels their references resolve to *)
 Fixpoint add_submodels (S : ostore) (subs : list ident) (acc : ostore) : res ostore :=
@@ -409,7 +410,7 @@ Definition closure (S : ostore) (ids : list ident) : res ostore :=
 Definition write_aas (ids : list ident) (S : ostore) (F : Files.st) (json : bool) (w : wstate) : res wstate :=
   match closure S ids with
   | Err e => Err e
-  | Ok objs => write_all_aas_objects (if json then "/aasx/data.json" else "/aasx/data.xml") objs F json false w
+  | Ok objs => write_all_aas_objects (if json then "/aasx/data.json" else "/aasx/data.xml") objs F json false [] w
   end.
 
 Definition write_core_properties (tok : nat) (w : wstate) : res wstate :=
@@ -442,14 +443,14 @@ Definition w_close (w : wstate) : res (list lentry) :=
 (* one call on an open AASXWriter *)
 Inductive wcall :=
 | WAas (ids : list ident) (json : bool)
-| WObjs (part_name : string) (ids : list ident) (json split : bool)
+| WObjs (part_name : string) (ids : list ident) (json split : bool) (splits : list string)
 | WCore (tok : nat)
 | WThumb (name : string) (data : content) (ct : ctype).
 
 Definition wstep (S : ostore) (F : Files.st) (w : wstate) (c : wcall) : res wstate :=
   match c with
   | WAas ids json => write_aas ids S F json w
-  | WObjs pn ids json split => write_aas_objects pn ids S F json split w
+  | WObjs pn ids json split splits => write_aas_objects pn ids S F json split (map (fun p => (RSplit, p)) splits) w
   | WCore tok => write_core_properties tok w
   | WThumb n d ct => write_thumbnail n d ct w
   end.
